@@ -320,7 +320,10 @@ X_BitBack(e) ==
 \* ---- C06 ------------------------------------------------------------------
 X_Line(e) == Ok(e) /\ LineAccept(e.r, e.a.moves, e.a.end)
 
+X_LineAxis(e) == Ok(e) /\ LineAxisAccept(e.r, e.a.axis, e.a.n)
+
 \* ---- C14 ------------------------------------------------------------------
+X_CorridorAxis(e) == Ok(e) /\ CorridorAxisAccept(e.r.rm, e.r.rs, e.a.axis, e.a.n, e.a.fitH, e.a.fitV, e.a.zeroRadius)
 X_Corridor(e) == Ok(e) /\ CorridorAccept(e.r.rm, e.r.rs, e.a.L, e.a.fitH, e.a.fitV, e.a.zeroRadius, e.a.far, e.a.mod)
 \* negative radius, invalid zoom, nil point: an error and no result
 \* r = <<layers for clearance c, layers for the larger clearance c2>>, each <<east-west, north-south>>
@@ -468,6 +471,8 @@ Explains(e) ==
       [] e.op = "BitBackHi"            -> X_BitBackHi(e)
       [] e.op \in {"Line", "LineSp"}   -> X_Line(e)
       [] e.op = "Corridor"             -> X_Corridor(e)
+      [] e.op = "LineAxis"             -> X_LineAxis(e)
+      [] e.op = "CorridorAxis"         -> X_CorridorAxis(e)
       [] e.op = "CorridorInvalid"      -> X_CorridorInvalid(e)
       [] e.op = "Fit"                  -> X_Fit(e)
       [] e.op = "Determ"               -> X_Determ(e)
@@ -541,6 +546,10 @@ Expected(e) ==
     [] e.op \in {"Line", "LineSp"}   -> [walkEnd |-> WalkEnd(e.a.moves),
                                          notTouched |-> Range(e.r) \ Touched(e.a.moves),
                                          reachable |-> Cardinality(Reachable(Range(e.r), <<0, 0, 0>>))]
+    [] e.op = "LineAxis"             -> [n |-> e.a.n, axis |-> e.a.axis, len |-> Len(e.r), missing |-> AxisRun(e.a.axis, e.a.n) \ Range(e.r),
+                                         extra |-> Range(e.r) \ AxisRun(e.a.axis, e.a.n)]
+    [] e.op = "CorridorAxis"         -> [lineMissing |-> AxisRun(e.a.axis, e.a.n) \ Range(e.r.rm),
+                                         outsideBox |-> Cardinality({p \in Range(e.r.rs) : ~InAxisBox(p, e.a.axis, e.a.n, e.a.fitH, e.a.fitV)})]
     [] e.op = "Corridor"             -> [measuredNotInSkipped |-> Range(e.r.rm) \ Range(e.r.rs),
                                          lineMissing |-> Range(e.a.L) \ Range(e.r.rm),
                                          outsideBox |-> {p \in Range(e.r.rs) \ Range(e.a.L) :
